@@ -176,16 +176,16 @@ def run(chk):
         chunk = 2000
     else:
         jobs = [
-            ("q5", ["-q", "5", "-fams", ",".join([T, U, C, G]), "-maxn", "4", "-cnfn", "4", "-leaves", "5", "-cap", "1500", "-exh", "125", "-deals", "2"]),
+            ("q5", ["-q", "5", "-fams", ",".join([T, U, C, G]), "-maxn", "4", "-cnfn", "4", "-leaves", "5", "-cap", "200", "-exh", "25", "-deals", "2"]),
             ("q11-tu", ["-q", "11", "-fams", T + "," + U, "-maxn", "6", "-exh", "121", "-deals", "3"]),
             ("q11-cnf4", ["-q", "11", "-fams", C, "-cnfn", "4", "-exh", "11", "-deals", "2"]),
-            ("q11-cnf5", ["-q", "11", "-fams", C, "-cnfn", "5", "-exh", "0", "-deals", "1", "-ids", "dense,large", "-cap", "6000"]),
-            ("q11-tree", ["-q", "11", "-fams", G, "-maxn", "5", "-leaves", "5", "-cap", "2500", "-exh", "11", "-deals", "1"]),
-            ("q23", ["-q", "23", "-fams", ",".join([T, U, C, G]), "-maxn", "6", "-cnfn", "4", "-leaves", "4", "-cap", "700", "-exh", "23", "-deals", "2"]),
+            ("q11-cnf5", ["-q", "11", "-fams", C, "-cnfn", "5", "-exh", "0", "-deals", "1", "-ids", "dense,large", "-cap", "1200"]),
+            ("q11-tree", ["-q", "11", "-fams", G, "-maxn", "5", "-leaves", "5", "-cap", "600", "-exh", "0", "-deals", "1"]),
+            ("q23", ["-q", "23", "-fams", ",".join([T, U, C, G]), "-maxn", "6", "-cnfn", "4", "-leaves", "4", "-cap", "150", "-exh", "0", "-deals", "1", "-ids", "dense,sparse,unsorted"]),
             ("q251-hier", ["-q", "251", "-fams", H, "-maxn", "5", "-exh", "0", "-deals", "2"]),
-            ("q251", ["-q", "251", "-fams", ",".join([T, U, C, G]), "-maxn", "6", "-cnfn", "4", "-leaves", "5", "-cap", "500", "-exh", "0", "-deals", "2"]),
+            ("q251", ["-q", "251", "-fams", ",".join([T, U, C, G]), "-maxn", "6", "-cnfn", "4", "-leaves", "5", "-cap", "150", "-exh", "0", "-deals", "1", "-ids", "dense,large"]),
             ("q45971-hier", ["-q", "45971", "-fams", H, "-maxn", "5", "-exh", "0", "-deals", "2"]),
-            ("q45971", ["-q", "45971", "-fams", ",".join([T, U, C, G]), "-maxn", "6", "-cnfn", "4", "-leaves", "5", "-cap", "500", "-exh", "0", "-deals", "2"]),
+            ("q45971", ["-q", "45971", "-fams", ",".join([T, U, C, G]), "-maxn", "6", "-cnfn", "4", "-leaves", "5", "-cap", "150", "-exh", "0", "-deals", "1", "-ids", "sparse,large"]),
         ]
         mcs = ["SharingMC_q5.cfg", "SharingMC_q7.cfg", "SharingMC_q5_thorough.cfg", "SharingMC_q7_thorough.cfg"]
         chunk = 4000
